@@ -220,3 +220,113 @@ func ReadWCNF(text string) (n int, cl []WClause, err error) {
 	}
 	return n, cl, nil
 }
+
+// BF is a small reference formula type for the .bf files of C19 (gophersat's
+// documented text syntax: ^ & | -> = ; and {a, b, c} exactly-one groups).
+type BF struct {
+	Op    string   `json:"op"` // var not and or implies eq unique top (";"-conjunction)
+	Var   string   `json:"var,omitempty"`
+	Subs  []*BF    `json:"subs,omitempty"`
+	Names []string `json:"names,omitempty"`
+}
+
+func (f *BF) Eval(m map[string]bool) bool {
+	switch f.Op {
+	case "var":
+		return m[f.Var]
+	case "not":
+		return !f.Subs[0].Eval(m)
+	case "and", "top":
+		for _, s := range f.Subs {
+			if !s.Eval(m) {
+				return false
+			}
+		}
+		return true
+	case "or":
+		for _, s := range f.Subs {
+			if s.Eval(m) {
+				return true
+			}
+		}
+		return false
+	case "implies":
+		return !f.Subs[0].Eval(m) || f.Subs[1].Eval(m)
+	case "eq":
+		return f.Subs[0].Eval(m) == f.Subs[1].Eval(m)
+	case "unique":
+		n := 0
+		for _, v := range f.Names {
+			if m[v] {
+				n++
+			}
+		}
+		return n == 1
+	}
+	panic("ref: bad BF op " + f.Op)
+}
+
+// Vars returns the variable names in order of first appearance.
+func (f *BF) Vars() []string {
+	seen := map[string]bool{}
+	var out []string
+	var rec func(g *BF)
+	rec = func(g *BF) {
+		if g.Op == "var" && !seen[g.Var] {
+			seen[g.Var] = true
+			out = append(out, g.Var)
+		}
+		for _, v := range g.Names {
+			if !seen[v] {
+				seen[v] = true
+				out = append(out, v)
+			}
+		}
+		for _, s := range g.Subs {
+			rec(s)
+		}
+	}
+	rec(f)
+	return out
+}
+
+// Render writes the formula fully parenthesised (precedence is C17's business, not C19's).
+func (f *BF) Render() string {
+	switch f.Op {
+	case "var":
+		return f.Var
+	case "not":
+		return "^(" + f.Subs[0].Render() + ")"
+	case "top":
+		parts := make([]string, len(f.Subs))
+		for i, s := range f.Subs {
+			parts[i] = s.Render()
+		}
+		return strings.Join(parts, ";\n")
+	case "and", "or", "implies", "eq":
+		op := map[string]string{"and": " & ", "or": " | ", "implies": " -> ", "eq": " = "}[f.Op]
+		parts := make([]string, len(f.Subs))
+		for i, s := range f.Subs {
+			parts[i] = "(" + s.Render() + ")"
+		}
+		return strings.Join(parts, op)
+	case "unique":
+		return "{" + strings.Join(f.Names, ", ") + "}"
+	}
+	panic("ref: bad BF op " + f.Op)
+}
+
+// Satisfiable enumerates assignments over the formula's variables.
+func (f *BF) Satisfiable() bool {
+	vs := f.Vars()
+	for a := 0; a < 1<<uint(len(vs)); a++ {
+		m := map[string]bool{}
+		for i, v := range vs {
+			m[v] = a>>uint(i)&1 == 1
+		}
+		if f.Eval(m) {
+			return true
+		}
+	}
+	return false
+}
